@@ -154,6 +154,12 @@ class ProgramModel(DSOLModel):
         self.r = runner
         self.handles = {}
         self.executed = 0
+        # events built once, before initialize(), and scheduled as objects
+        # in construct_model (documented use of schedule_event(event))
+        self.prebuilt = {}
+        for a in runner.prog["roots"]:
+            if a[0] == "pre":
+                self.prebuilt[a[2]] = SimEvent(runner.tv(a[1]), self, "h", a[3], eid=a[2])
 
     def construct_model(self):
         self.handles = {}
@@ -259,10 +265,13 @@ class Runner:
         sim = self.sim
         kind = a[0]
         H = self.hist.H
-        if kind in ("now", "rel", "abs"):
+        if kind in ("now", "rel", "abs", "pre"):
             before = sim.eventlist().size()
             try:
-                if kind == "now":
+                if kind == "pre":
+                    ev = sim.schedule_event(model.prebuilt[a[2]])
+                    child = a[2]
+                elif kind == "now":
                     ev = sim.schedule_event_now(model, "h", a[2], eid=a[1])
                     child = a[1]
                 elif kind == "rel":
@@ -301,6 +310,10 @@ class Runner:
             raise EXC_TYPES[a[1]]("injected fault in %s" % owner)
         elif kind == "cmd":
             self.do_cmd_from_callback(a[1:], "handler", owner, idx)
+        elif kind == "strategy":
+            # documented: the error strategy can be changed during the run
+            self.count("strategy_changed_mid_run")
+            sim.set_error_strategy(a[1])
         elif self.ext is not None:
             self.ext.perform(self, model, owner, idx, a)
         else:
